@@ -18,9 +18,11 @@ Trace == ndJsonDeserialize(IOEnv.TRACE_FILE)
 VARIABLES l, cfg, learned
 tvars == <<l, cfg, learned>>
 
+\* a case that was configured with host tables (service level / top level) resolves aliases through them
+ResolvOf(e) == IF "hosts" \in DOMAIN cfg THEN HostTable(cfg.hosts.svc, cfg.hosts.global) @@ e.resolv ELSE e.resolv
 EnvOf(e) ==
     LET P == cfg.proxies[e.pi] IN
-    [ keep |-> cfg.keep, names |-> cfg.names, static |-> cfg.static, resolv |-> e.resolv, rx |-> e.rx, tohost |-> e.tohost,
+    [ keep |-> cfg.keep, names |-> cfg.names, static |-> cfg.static, resolv |-> ResolvOf(e), rx |-> e.rx, tohost |-> e.tohost,
       L |-> cfg.all[e.lid], trans |-> [i \in DOMAIN P.trans |-> cfg.all[P.trans[i]]], all |-> cfg.all,
       mustrr |-> P.mustrr, recv |-> P.recv, src |-> e.src, learned |-> learned, pool |-> Range(e.pool) ]
 
